@@ -26,30 +26,35 @@ def single_run_reports(repo, N, which, timeout=TIMEOUT):
     sf = ce.SPEC_FUNCS
     if "node" in which:
         reps.append(verify.verify(repo, ce.calculate_node(N), ce.SCHEMA, [], {}, sf, inline=set(), config=cfg,
-                                  timeout_ms=timeout))
+                                  timeout_ms=timeout, defer=True))
     if "getyonx" in which:
         ls = {(ce.FILE, "Evolvent.__GetYonX", 0): ce.getyonx_loop(N)}
         reps.append(verify.verify(repo, ce.getyonx(N), ce.SCHEMA, [ce.calculate_node(N)], ls, sf, inline=set(),
-                                  config=cfg, timeout_ms=timeout))
+                                  config=cfg, timeout_ms=timeout, defer=True))
     if "p2d" in which:
         reps.append(verify.verify(repo, ce.transform_p2d(N), ce.SCHEMA, [], {}, sf, inline=set(), config=cfg,
-                                  timeout_ms=timeout))
+                                  timeout_ms=timeout, defer=True))
     if "getimage" in which:
         reps.append(verify.verify(repo, ce.get_image(N), ce.SCHEMA, [ce.getyonx(N), ce.transform_p2d(N)], {}, sf,
                                   inline=set(), config=cfg, timeout_ms=timeout))
     if "init" in which:
         reps.append(verify.verify(repo, ce.evolvent_init(N), ce.SCHEMA, [], {}, sf, inline=set(), config=cfg,
-                                  timeout_ms=timeout))
+                                  timeout_ms=timeout, defer=True))
     return reps
 
 
-def relational(repo, chk, N, which, timeout=TIMEOUT):
+def relational_obligations(repo, chk, N, which):
+    """generate (not yet discharge) the 2-run product lemmas"""
     try:
         obs = er.lemmas(repo, N, which)
     except (Unsupported, EngineError) as e:
         chk.errors.append(("Evolvent.__GetYonX 2-run product N=%d" % N, str(e)))
-        return
+        return []
     chk.functions.add("%s::Evolvent.__GetYonX (2-run product)" % ce.FILE)
+    return obs
+
+
+def discharge_lemmas(chk, obs, timeout=TIMEOUT):
     for r in discharge.discharge(obs, timeout_ms=timeout):
         chk.add_result(r)
 
@@ -126,3 +131,76 @@ def _native_oracle(mode, item, seed, **kw):
     if res["failures"]:
         return res["failures"][0]
     return None
+
+
+
+# ----------------------------------------------------------------------------- parallel generation (one task per N)
+def gen_task(N, single, rel, extra):
+    """Runs in a pool worker: symbolic execution for dimension N; returns picklable reports / serialised lemmas.
+    single: names for single_run_reports; rel: R01/R2/NEST; extra: subset of
+    {numbr, getxony, d2p, setbounds, inverse_api, inverse_lemmas, inverse_self, n1_forward, n1_inverse, n1_init, n1_setbounds}"""
+    repo = Repo()
+    sf = ce.SPEC_FUNCS
+    cfg = "N=%d" % N
+    reps, lems, errors, funcs = [], [], [], []
+    if N >= 2:
+        reps += single_run_reports(repo, N, single)
+        if "numbr" in extra:
+            reps.append(verify.verify(repo, ce.calculate_numbr(N), ce.SCHEMA, [], {}, sf, inline=set(), config=cfg,
+                                      defer=True, timeout_ms=TIMEOUT))
+        if "getxony" in extra:
+            ls = {(ce.FILE, "Evolvent.__GetXonY", 0): ce.getxony_loop(N)}
+            reps.append(verify.verify(repo, ce.getxony(N), ce.SCHEMA, [ce.calculate_numbr(N)], ls, sf, inline=set(),
+                                      config=cfg, defer=True, timeout_ms=TIMEOUT))
+        if "d2p" in extra:
+            reps.append(verify.verify(repo, ce.transform_d2p(N), ce.SCHEMA, [], {}, sf, inline=set(), config=cfg, defer=True))
+        if "setbounds" in extra:
+            reps.append(verify.verify(repo, ce.set_bounds(N), ce.SCHEMA, [], {}, sf, inline=set(), config=cfg, defer=True))
+        if "inverse_api" in extra:
+            for nm in ("GetInverseImage", "GetPreimages"):
+                reps.append(verify.verify(repo, ce.inverse_api(nm, N), ce.SCHEMA, [ce.getxony(N), ce.transform_d2p(N)], {},
+                                          sf, inline=set(), config=cfg, defer=True, timeout_ms=TIMEOUT))
+        for name, fn, label in (("rel", lambda: er.lemmas(repo, N, rel) if rel else [], "Evolvent.__GetYonX (2-run product)"),
+                                ("inverse_lemmas", lambda: er.inverse_lemmas(repo, N),
+                                 "Evolvent.__GetXonY x Evolvent.__GetYonX (lock-step product)"),
+                                ("inverse_self", lambda: er.inverse_self_lemmas(repo, N), "Evolvent.__GetXonY (2-run product)")):
+            if name != "rel" and name not in extra:
+                continue
+            try:
+                obs = fn()
+                if obs:
+                    funcs.append("%s::%s" % (ce.FILE, label))
+                lems += [discharge.serialize(o) for o in obs]
+            except (Unsupported, EngineError) as e:
+                errors.append(("%s N=%d" % (label, N), str(e)))
+    else:
+        if "n1_forward" in extra:
+            reps.append(verify.verify(repo, ce.get_image_1(), ce.SCHEMA, [ce.transform_p2d(1)], {}, sf,
+                                      inline={("Evolvent", "__GetYonX")}, config="N=1", defer=True))
+            reps.append(verify.verify(repo, ce.transform_p2d(1), ce.SCHEMA, [], {}, sf, inline=set(), config="N=1", defer=True))
+        if "n1_inverse" in extra:
+            reps.append(verify.verify(repo, ce.transform_d2p(1), ce.SCHEMA, [], {}, sf, inline=set(), config="N=1", defer=True))
+            for nm in ("GetInverseImage", "GetPreimages"):
+                reps.append(verify.verify(repo, ce.inverse_api_1(nm), ce.SCHEMA, [ce.transform_d2p(1)], {}, sf,
+                                          inline={("Evolvent", "__GetXonY")}, config="N=1", defer=True))
+        if "n1_init" in extra:
+            reps.append(verify.verify(repo, ce.evolvent_init(1), ce.SCHEMA, [], {}, sf, inline=set(), config="N=1", defer=True))
+        if "n1_setbounds" in extra:
+            reps.append(verify.verify(repo, ce.set_bounds(1), ce.SCHEMA, [], {}, sf, inline=set(), config="N=1", defer=True))
+    return dict(reps=reps, lems=lems, errors=errors, funcs=funcs)
+
+
+def run_parallel(chk, single, rel, extra, Ns=(1, 2, 3, 4, 5), more_reports=(), more_lemmas=()):
+    """generate in parallel (one worker per dimension), then discharge everything in one batch"""
+    tasks = [("props.evolvent_common", "gen_task", (N, tuple(single), tuple(rel), tuple(extra))) for N in sorted(Ns, reverse=True)]
+    outs = discharge.run_tasks(tasks)
+    reps, lems = list(more_reports), [discharge.serialize(o) for o in more_lemmas]
+    for o in outs:
+        reps += o["reps"]
+        lems += o["lems"]
+        chk.errors += o["errors"]
+        chk.functions |= set(o["funcs"])
+    verify.finish_reports(reps)
+    for rep in reps:
+        chk.add_report(rep)
+    discharge_lemmas(chk, lems)
